@@ -32,6 +32,13 @@ Findings on the unchanged tree (families computed from the input):
   git-dir-rename-vs-change-inside   git: one side renames/moves a directory, the other adds/changes a
                                     path inside it: no conflict is reported, the file is moved on disk
                                     but the index keeps the old path (versioned+missing, new path unversioned)
+  git-duplicate-content-rename-detection
+                                    git: the same blob is introduced at different paths by the two sides (or a
+                                    moved blob has several candidate sources): find_previous_path / rename
+                                    detection pairs unrelated files, one side's file disappears
+  git-identical-move-into-new-directory
+                                    git: both sides move a file into the same new directory: merge raises
+                                    KeyError / ImmortalPendingDeletion (the file can vanish from disk)
   symlink-loop-becomes-file         THIS has a symlink whose target chain loops (e.g. b -> b), OTHER turns
                                     it into a file: merge dies with OSError ELOOP (transform._set_mode uses os.stat)
 
@@ -74,6 +81,8 @@ TRUSTED = ["text merge of one file changed on both sides is not modelled (T6 com
 
 F_GITDIR = "git-dir-rename-vs-change-inside"
 F_ELOOP = "symlink-loop-becomes-file"
+F_GITSAME = "git-duplicate-content-rename-detection"
+F_GITNEWDIR = "git-identical-move-into-new-directory"
 ROOT = "ROOT"
 NAMES = ["a", "b", "c", "d", "e", "f", "g"]
 
@@ -358,6 +367,45 @@ def symlink_loop_to_file(this, exp):
         if cur is not None and this[cur]["kind"] == "l":
             return True
     return False
+
+
+def git_family(base, this, other):
+    """input classifiers (git views) of two rename-detection defects"""
+    def same(a, b):
+        return (a["kind"], a["content"]) == (b["kind"], b["content"])
+    def blob(e):
+        return (e["kind"], e["content"])
+
+    def added(t):      # paths whose blob is new at that path on this side
+        return {p: blob(e) for p, e in t.items() if p != ROOT and (p not in base or blob(base[p]) != blob(e))}
+
+    def removed(t):    # base paths whose blob is gone from that path on this side
+        return {p: blob(e) for p, e in base.items() if p != ROOT and (p not in t or blob(t[p]) != blob(e))}
+    at, ao = added(this), added(other)
+    # (1) both sides introduce the same blob at different paths: find_previous_path(OTHER -> THIS) pairs them
+    for p, x in ao.items():
+        for q, y in at.items():
+            if x == y and p != q and other.get(q) != this.get(q):
+                return F_GITSAME
+    # (2) a blob that one side introduces somewhere has several candidate sources/targets (duplicate
+    # contents): rename detection may pair the wrong ones
+    for t, a in ((this, at), (other, ao)):
+        r = removed(t)
+        for x in set(a.values()):
+            srcs = [p for p, y in r.items() if y == x] + [p for p, e in base.items() if p != ROOT and p not in r and blob(e) == x]
+            tgts = [p for p, y in a.items() if y == x]
+            if (srcs and len(srcs) + len(tgts) > 2):
+                return F_GITSAME
+    # both sides move a file into a directory that does not exist in BASE
+    for p, te in this.items():
+        if p == ROOT or p in base or other.get(p) != te or "/" not in p:
+            continue
+        d = os.path.dirname(p)
+        if any(x == d or x.startswith(d + "/") for x in base if x != ROOT):
+            continue
+        if any(q != ROOT and q not in this and same(be, te) for q, be in base.items()):
+            return F_GITNEWDIR
+    return None
 
 
 # --------------------------------------------------------------------------
@@ -660,7 +708,7 @@ def build_cases(ctx, n):
             continue
         base, this, other, exp, info = g
         mtype = rng.choice(["merge3", "merge3", "weave", "lca"])
-        if fmt == "git" and rel == "T6":
+        if fmt == "git" and rel in ("T6", "A5"):
             mtype = "merge3"       # git trees have no plan_file_merge: weave/lca text merges raise AttributeError
         via = rng.choice(["merger", "merger", "mfb"])
         if fmt == "git":
@@ -694,7 +742,9 @@ def evaluate(ctx, c, res, lines, impls, recs):
             if exp != idexp:
                 # one side renames/moves a directory, the other adds or keeps a changed path inside it
                 fam = F_GITDIR
-                ctx.count("git-dir-rename-vs-change-inside")
+        fam = fam or git_family(base, this, other)
+        if fam:
+            ctx.count("family-input:" + fam)
     rec = dict(fmt=fmt, mtype=c["mtype"], via=c["via"], rel=rel,
                base=jsonable(c["base"]), this=jsonable(c["this"]), other=jsonable(c["other"]))
     interesting = bool(set(c["info"]["ops"]) - {"edit"}) or rel in ("L4", "A5", "T6")
@@ -708,6 +758,11 @@ def evaluate(ctx, c, res, lines, impls, recs):
     if res["exc"] and res["exc"].startswith("setup:"):
         ctx.count("setup-failed")
         ctx.extra.setdefault("setup_failures", []).append(res["exc"])
+        return
+    if fmt == "git" and rel == "A5" and any(p in base and this[p] != base[p] for p in this):
+        # THIS renamed a file onto a path another file had in BASE (rename chain / swap): "the same file"
+        # is not defined for path-keyed trees; outside the laws, outcome only recorded
+        ctx.count("excluded:git-A5-path-reuse:" + ("raised" if res["exc"] else "conflicts" if res["conflicts"] else "clean"))
         return
     if excluded:
         # union not well-formed (e.g. OTHER adds below a directory THIS deleted): nothing is demanded
